@@ -1,5 +1,12 @@
 """Application family for C01/C02: few, mostly cloneable types with many by-value consumers
-(dense ownership contention: several consumers competing for several values)."""
+(dense ownership contention: several consumers competing for several values).
+
+Four applications in ten also carry a *ring*: k >= 2 values V_i, each taken by value by c_i and borrowed by b_i, where
+b_{i+1} needs the output of c_i and b_1 needs the output of c_k: a cycle of "borrowers first, consumer last"
+constraints that goes through dependency edges. No evaluation order exists unless one V_i is cloned, and only the
+forward pass `ordering_stalemates` (repo 437e3c1) sees it; before that repair the compiler panicked ("stuck")."""
+import zlib
+
 import gen_app
 
 
@@ -7,7 +14,53 @@ def plan(tier):
     return 10 if tier == "quick" else 120
 
 
+def _ctor(name, i, ins, cloning, life="request"):
+    return {"i": i, "out": i, "life": life, "cloning": cloning, "ins": ins, "fallible": False, "async": False,
+            "method": False, "fw": None, "override": None}
+
+
+def add_ring(rng, spec, k, cloneable):
+    """appends the ring to `spec` (types, constructors, one more route whose handler takes every b_i by value)."""
+    name = spec["name"]
+    n0 = len(spec["types"])
+    V = [n0 + i for i in range(k)]                 # V_i
+    C = [n0 + k + 2 * i for i in range(k)]         # output of c_i(V_i)
+    B = [n0 + k + 2 * i + 1 for i in range(k)]     # output of b_i(&V_i, out(c_{i-1}))
+    n1 = n0 + 3 * k
+    for j in range(n0, n1):
+        spec["types"].append({"i": j, "clone": False, "copy": False, "cap": None})
+    ctors = {}
+    for i in range(k):
+        cl = cloneable[i]
+        spec["types"][V[i]]["clone"] = cl
+        ctors[V[i]] = _ctor(name, V[i], [], cl)
+        ctors[C[i]] = _ctor(name, C[i], [[V[i], "val"]], False)
+    for i in range(k):
+        ctors[B[i]] = _ctor(name, B[i], [[V[i], "ref"], [C[(i - 1) % k], "val"]], False)
+    # constructor i must only use types of a smaller index (the renderer and the life model rely on it for the acyclic
+    # part; the ring is acyclic as a dependency graph: b_i depends on c_{i-1}): indices were laid out V*, then (c_i, b_i)
+    # pairs, so b_0 needs c_{k-1}, a larger index. Nothing orders constructor definitions in Rust, so this is fine for
+    # rendering; the spec is marked so that checks whose model assumes the index order skip it.
+    for j in range(n0, n1):
+        spec["ctors"].append(ctors[j])
+    h = len(spec["handlers"])
+    spec["handlers"].append({"i": h, "method": "GET", "path": "/%s/ring" % name, "full_path": "/%s/ring" % name,
+                             "ins": [[b, "val"] for b in B], "fallible": False, "async": False, "fw": None})
+    spec["bp"] = [["ctor", j] for j in range(n0, n1)] + spec["bp"] + [["route", h]]
+    spec["ring"] = {"k": k, "cloneable": cloneable, "V": V, "C": C, "B": B}
+    return spec
+
+
 def make(rng, name):
     spec = gen_app.gen_spec(rng, name, "free", size=rng.randrange(3, 7), n_mws=rng.choice([0, 0, 1, 2]), own_stress=True)
     spec["klass"] = "own"
+    # chosen without consuming the generator's random stream (the rest of the family stays what it was)
+    z = zlib.crc32(("ring/%s" % name).encode())
+    if z % 10 < 4:
+        k = 2 + (z >> 4) % 2
+        pat = (z >> 11) % 3
+        cloneable = [True] * k if pat == 0 else ([False] * k if pat == 1 else [i == k - 1 for i in range(k)])
+        add_ring(rng, spec, k, cloneable)
+        # b_0 needs the output of c_{k-1}, a constructor with a larger index: outside what the life model (C03/C04) reads
+        spec["klass"] = "ownring"
     return spec
